@@ -15,6 +15,8 @@ import (
 	"time"
 
 	"gosym/sym"
+
+	"golang.org/x/tools/go/ssa"
 )
 
 const VerifDir = "/verif"
@@ -107,6 +109,7 @@ type ReplayFile struct {
 	Kind     string        `json:"kind"`
 	Label    string        `json:"label"`
 	Detail   string        `json:"detail,omitempty"`
+	Globals  map[string]int64 `json:"globals,omitempty"`
 	Expect   string        `json:"expect"` // fail | pass
 	Reaches  []string      `json:"reaches,omitempty"`
 	Inputs   []ReplayInput `json:"inputs"`
@@ -163,6 +166,28 @@ func harnessFuncs(p *sym.Program, pkgRel string) []string {
 	return out
 }
 
+// intGlobals lists the int-typed verif* package variables (tier bounds).
+func intGlobals(p *sym.Program, pkgRel string) []string {
+	path := sym.ModPath
+	if pkgRel != "" {
+		path += "/" + pkgRel
+	}
+	sp := p.Pkgs[path]
+	var out []string
+	if sp == nil {
+		return nil
+	}
+	for name, m := range sp.Members {
+		if g, ok := m.(*ssa.Global); ok && strings.HasPrefix(name, "verif") {
+			if g.Type().String() == "*int" {
+				out = append(out, name)
+			}
+		}
+	}
+	sort.Strings(out)
+	return out
+}
+
 // NativeReplay runs replay files of one package against the native build of
 // /repo (go test -overlay, nothing is written into /repo).
 func NativeReplay(p *sym.Program, pkgRel string, files []string, race bool) (map[string]*NativeResult, error) {
@@ -203,12 +228,27 @@ func NativeReplay(p *sym.Program, pkgRel string, files []string, race bool) (map
 		repl[filepath.Join(d, "zz_verif_api.go")] = f
 	}
 	repl[filepath.Join(sym.RepoDir, "zzverif/api/api.go")] = filepath.Join(VerifDir, "harness", "_api", "shared.go.tmpl")
+	std, err := sym.StdOverlay()
+	if err != nil {
+		return nil, err
+	}
+	for path, data := range std {
+		f := filepath.Join(tmp, fmt.Sprintf("std_%d.go", i))
+		i++
+		os.WriteFile(f, data, 0o644)
+		repl[path] = f
+	}
 	// test driver
 	var sb strings.Builder
 	fmt.Fprintf(&sb, "package %s\n\nimport (\n\t\"fmt\"\n\t\"os\"\n\t\"strings\"\n\t\"testing\"\n\n\t\"github.com/mandykoh/prism/zzverif/api\"\n)\n\n", pkgName)
 	sb.WriteString("var verifHarnessTable = map[string]func(){\n")
 	for _, fn := range harnessFuncs(p, pkgRel) {
 		fmt.Fprintf(&sb, "\t%q: %s,\n", fn, fn)
+	}
+	sb.WriteString("}\n\n")
+	sb.WriteString("var verifIntGlobals = map[string]*int{\n")
+	for _, g := range intGlobals(p, pkgRel) {
+		fmt.Fprintf(&sb, "\t%q: &%s,\n", g, g)
 	}
 	sb.WriteString("}\n\n")
 	sb.WriteString(`func verifRunOne(file, fn string) {
@@ -230,6 +270,11 @@ func NativeReplay(p *sym.Program, pkgRel string, files []string, race bool) (map
 		fmt.Printf("REPLAY-END %s\n", file)
 	}()
 	api.Reset(file)
+	for name, val := range api.Globals(file) {
+		if p := verifIntGlobals[name]; p != nil {
+			*p = int(val)
+		}
+	}
 	h := verifHarnessTable[fn]
 	if h == nil {
 		panic(api.Invalid{"unknown harness " + fn})
@@ -428,7 +473,7 @@ func RunProperty(id, tier string, seed int64) int {
 				continue
 			}
 			seen[key] = true
-			rf := &ReplayFile{Property: id, Harness: name, Pkg: r.H.Pkg, Func: r.H.Func, Kind: v.Kind, Label: v.Label, Detail: v.Detail, Expect: "fail", Inputs: inputsOf(v.Inputs)}
+			rf := &ReplayFile{Property: id, Harness: name, Pkg: r.H.Pkg, Func: r.H.Func, Kind: v.Kind, Label: v.Label, Detail: v.Detail, Expect: "fail", Inputs: inputsOf(v.Inputs), Globals: r.H.SetGlobals}
 			f := writeReplay(rf)
 			pend = append(pend, &pendingViolation{v, r, f})
 			if !r.NoReplay {
@@ -436,7 +481,7 @@ func RunProperty(id, tier string, seed int64) int {
 			}
 		}
 		for _, s := range rep.Samples {
-			rf := &ReplayFile{Property: id, Harness: name, Pkg: r.H.Pkg, Func: r.H.Func, Kind: "sample", Expect: "pass", Reaches: s.Reaches, Inputs: inputsOf(s.Inputs)}
+			rf := &ReplayFile{Property: id, Harness: name, Pkg: r.H.Pkg, Func: r.H.Func, Kind: "sample", Expect: "pass", Reaches: s.Reaches, Inputs: inputsOf(s.Inputs), Globals: r.H.SetGlobals}
 			tmpf, _ := os.CreateTemp("", "verif-sample-*.json")
 			data, _ := json.Marshal(rf)
 			tmpf.Write(data)
